@@ -114,7 +114,7 @@ fn leading_flag_before_removed(ast: &syntax::Seq) -> bool {
     false
 }
 
-fn first_token_is_rooted_repetition(ast: &syntax::Seq) -> bool {
+pub fn first_token_is_rooted_repetition(ast: &syntax::Seq) -> bool {
     ast.iter().find(|n| !n.is_flag()).map_or(false, |n| n.is_branch())
 }
 
